@@ -49,7 +49,7 @@ type gitscannerResult struct {
 
 func scanUnpushed(cb GitScannerFoundPointer, remote string) error {
 	logArgs := []string{
-		"--branches", "--tags", // include all locally referenced commits
+		"HEAD", "--branches", "--tags", // include all locally referenced commits, and a detached HEAD
 		"--not"} // but exclude everything that comes after
 
 	if len(remote) == 0 {
